@@ -29,9 +29,12 @@ def handle (op : String) (cfg _inp outp : List String) : Verdict :=
         | none => .bad "adapt: unknown cone matrix"
       | none => .bad "adapt: unparsable"
   | "rgbwhite", [std] =>
-    match Color.standard? std with
+    -- a standard as the harness names it, or (coverage audit C14: DciP3Plus<F> has a matrix pair of its own but no entry in `standard?`) an RGB space by its own name
+    match (match Color.standard? std with
+           | some (space, _) => some space
+           | none => if (Color.rgbSpace? std).isSome then some std else none) with
     | none => .bad "rgbwhite: unknown standard"
-    | some (space, _) =>
+    | some space =>
       match Color.rgbSpace? space with
       | none => .bad "rgbwhite: unknown space"
       | some sp =>
